@@ -186,6 +186,10 @@ func primAddr(pk keys.PublicKey) ([]byte, bool) {
 		}
 		return ethcrypto.PubkeyToAddress(*p).Bytes(), true
 	case keys.BTCECSECP:
+		// a BTCEC key is the 33-byte compressed point (one spelling, as for SECP256K1 above)
+		if len(pk.Data) != 33 {
+			return nil, false
+		}
 		p, err := btcec.ParsePubKey(pk.Data, btcec.S256())
 		if err != nil {
 			return nil, false
@@ -260,6 +264,11 @@ func primVerify(pk keys.PublicKey, msg, sig []byte) (ok bool) {
 		}
 		ds, err := btcec.ParseDERSignature(sig, btcec.S256())
 		if err != nil {
+			return false
+		}
+		// one spelling per signature (the rule of the handler, restated here from the library
+		// alone): low s, minimal DER, nothing after it — which is what Serialize produces
+		if !bytes.Equal(ds.Serialize(), sig) {
 			return false
 		}
 		h := sha256.Sum256(msg)
@@ -502,7 +511,7 @@ func (p *keyPool) other(r *rng.R, k *sigKey) *sigKey {
 var vbClasses = []string{"valid", "valid", "valid", "drop-last-sig", "drop-first-sig", "extra-sig", "swap-sigs", "substitute-key", "flip-sig-byte", "sig-over-other-data",
 	"sig-by-other-key", "alg-tag-changed", "pk-truncated", "pk-extended", "alg-unknown", "signer-prefix", "signer-extended", "signer-bitflip", "empty-signer-btcec-junk",
 	"empty-signer-btcec-signed", "nil-signer-btcec-junk", "btcec-key-nonempty-signer", "btcec-unparseable", "ed25519-prehash", "ed25519-prehash-wrong-digest", "eth-sig-64", "eth-sig-65-badv",
-	"eth-key-undecompressable", "no-signers", "no-signers-one-sig", "dup-signer", "sig-empty", "sig-truncated", "sig-swapped-between-keys", "signer-order-swapped"}
+	"eth-key-undecompressable", "btcec-uncompressed-key", "btcec-high-s", "btcec-sig-trailing", "no-signers", "no-signers-one-sig", "dup-signer", "sig-empty", "sig-truncated", "sig-swapped-between-keys", "signer-order-swapped"}
 
 func genVB(r *rng.R, pool *keyPool) vbCase {
 	class := vbClasses[r.Intn(len(vbClasses))]
@@ -631,6 +640,29 @@ func genVB(r *rng.R, pool *keyPool) vbCase {
 			c.Signers[i] = keys.Address{}
 			pk.Data[0] = 0x09
 		}
+		c.Sigs[i] = action.Signature{Signer: pk, Signed: sig}
+	case "btcec-uncompressed-key", "btcec-high-s", "btcec-sig-trailing":
+		// another spelling of an authentic key / signature: the point uncompressed, (r, N-s), a byte
+		// after the signature; the libraries accept all three, the handler has one spelling of each
+		b := pool.pick(r, keys.BTCECSECP)
+		pk := clonePK(b.Pub)
+		sig := b.sign(data)
+		switch class {
+		case "btcec-uncompressed-key":
+			if p, err := btcec.ParsePubKey(pk.Data, btcec.S256()); err == nil {
+				pk.Data = p.SerializeUncompressed()
+				if r.Bool() {
+					pk.Data[0] = 6 | pk.Data[64]&1 // hybrid
+				}
+			}
+		case "btcec-high-s":
+			if t := twinSignature(keys.BTCECSECP, sig); t != nil {
+				sig = t
+			}
+		default:
+			sig = append(sig, byte(r.Intn(256)))
+		}
+		c.Signers[i] = append(keys.Address{}, b.Addr...)
 		c.Sigs[i] = action.Signature{Signer: pk, Signed: sig}
 	case "ed25519-prehash", "ed25519-prehash-wrong-digest":
 		k := pool.pick(r, keys.ED25519)
